@@ -27,6 +27,12 @@ CHECKS = {
  "C14": dict(level="exploration", tech="property-based testing: exact wire-format validator (independent JSON + RFC 3339 parser) over transmitted versions; grammar-based generation of foreign documents with reference replay",
    text="Outbound: every version the harness server receives is checked field by field (only Create/Delete/Update, exact field sets, string-or-null values, RFC 3339 Z timestamps equal to the committed instant) and the concatenation must equal the committed operations minus undo points. Inbound: documents from a grammar (permuted fields, whitespace, \\uXXXX escapes, 0-9 fractional digits) must be applied as the reference model says.",
    note="Plaintext observed at the Server trait boundary; inbound documents use the 'operations' wrapper; malformed documents out of scope.", ref="4/C14"),
+ "C18": dict(level="exploration", tech="property-based testing with hostile-value generators over the task key grammar; every read accessor under panic capture + value oracle from tasks.md",
+   text="Generated task maps over all recognised keys/prefixes with hostile values (i64 extremes, beyond-calendar and beyond-i64 integers, odd syntax, malformed tag/annotation/dependency keys, unknown statuses), stored via TaskData::update on in-memory/SQLite, reloaded, and every read method of Task, TaskData, WorkingSet, DependencyMap and Replica is called under catch_unwind; interpretable values must read as exactly that instant / be listed, uninterpretable ones as None / be skipped.",
+   note="Odd integer syntaxes and reserved all-uppercase tag names are no-panic only.", ref="4/C18"),
+ "C19": dict(level="exploration", tech="model-based property testing: a task-model reference predicts the exact recorded Update operations and resulting map of every mutator call",
+   text="Generated sessions of all public Task mutators (incl. deprecated ones, reserved names, synthetic tags) and TaskData update/delete across commits, reloads and repeated application; for every call the model predicts the recorded operations (property, previous value, new value or 'now') and the held map; held object == stored object after commit; end/modified rules; tags, annotations, dependencies, UDAs, synthetic tags and dependency_map(true) read back from the model.",
+   note="One object per task per session; wall-clock values accepted within the interval measured around the call.", ref="4/C19"),
  "C20": dict(level="exploration", tech="property-based testing over a full status x modified grid with generated concurrent edits and sync orders; exact-set oracle + chain replay",
    text="Every case holds the complete grid (6 statuses x 21 modified values incl. boundaries, out-of-range, non-numeric); expire_tasks must remove exactly the deleted tasks with a readable modification time older than 180 days, record ordinary Delete operations with the full old task, and after synchronization in either order with concurrent edits (update, re-open, outright delete) elsewhere the purged tasks are gone on every replica and everything else is untouched.",
    note="Wall clock read by expire_tasks: boundary cells keep >= 60 s distance; odd integer syntaxes are don't-care.", ref="4/C20"),
